@@ -7,6 +7,7 @@ import (
 	"fmt"
 	"os"
 	"os/exec"
+	"runtime"
 	"sort"
 	"strings"
 	"sync"
@@ -25,7 +26,9 @@ import (
 // C20: free-running race-detector pass over an exhaustively enumerated program space
 // (DESIGN §5 C20). Built with -race and the real sync / sync/atomic packages.
 
-var c20Calls = []string{"Start", "Stop", "StopCtx", "IsLeader", "LeaderID", "Token", "Status", "Validate", "ValidateOrDemote", "OnPromote", "OnDemote"}
+// the 11 public methods, plus the two connection notifications (handed to the serial
+// dispatcher at the same instant as the concurrent API calls)
+var c20Calls = []string{"Start", "Stop", "StopCtx", "IsLeader", "LeaderID", "Token", "Status", "Validate", "ValidateOrDemote", "OnPromote", "OnDemote", "NotifyD", "NotifyR"}
 var c20Phases = []string{"fresh", "leading", "following", "restarted", "disconnected"}
 
 type raceProgram struct {
@@ -82,7 +85,7 @@ func c20Programs(tier string) []raceProgram {
 				callerSets = append(callerSets, [][]string{{c}, l})
 			}
 		}
-		red := []string{"Stop", "StopCtx", "Start", "Status", "OnDemote", "ValidateOrDemote"}
+		red := []string{"Stop", "StopCtx", "Start", "Status", "OnDemote", "ValidateOrDemote", "NotifyD", "NotifyR"}
 		for i := 0; i < len(red); i++ {
 			for j := i; j < len(red); j++ {
 				for k := j; k < len(red); k++ {
@@ -235,21 +238,31 @@ func (p *fProv) NATSConnection() *nats.Conn                  { return p.conn }
 
 type fMetrics struct{}
 
-func (fMetrics) SetIsLeader(float64, prometheus.Labels)                    {}
-func (fMetrics) SetConnectionStatus(float64, prometheus.Labels)            {}
-func (fMetrics) IncTransitions(prometheus.Labels)                          {}
-func (fMetrics) IncFailures(prometheus.Labels)                             {}
-func (fMetrics) IncAcquireAttempts(prometheus.Labels)                      {}
-func (fMetrics) IncTokenValidationFailures(prometheus.Labels)              {}
-func (fMetrics) ObserveHeartbeatDuration(time.Duration, prometheus.Labels) {}
-func (fMetrics) ObserveLeaderDuration(time.Duration, prometheus.Labels)    {}
+// yield lets the other goroutines of the program run in the middle of whatever critical
+// section the library calls its metrics / logger from: callers that arrive meanwhile
+// queue up on the library's mutexes, which is what makes lock-protected and unprotected
+// accesses of different callers overlap in the race detector's happens-before graph.
+func yield() {
+	for i := 0; i < 6; i++ {
+		runtime.Gosched()
+	}
+}
+
+func (fMetrics) SetIsLeader(float64, prometheus.Labels)                    { yield() }
+func (fMetrics) SetConnectionStatus(float64, prometheus.Labels)            { yield() }
+func (fMetrics) IncTransitions(prometheus.Labels)                          { yield() }
+func (fMetrics) IncFailures(prometheus.Labels)                             { yield() }
+func (fMetrics) IncAcquireAttempts(prometheus.Labels)                      { yield() }
+func (fMetrics) IncTokenValidationFailures(prometheus.Labels)              { yield() }
+func (fMetrics) ObserveHeartbeatDuration(time.Duration, prometheus.Labels) { yield() }
+func (fMetrics) ObserveLeaderDuration(time.Duration, prometheus.Labels)    { yield() }
 
 type fLogger struct{}
 
 func (fLogger) Debug(string, ...zap.Field) {}
-func (fLogger) Info(string, ...zap.Field)  {}
-func (fLogger) Warn(string, ...zap.Field)  {}
-func (fLogger) Error(string, ...zap.Field) {}
+func (fLogger) Info(string, ...zap.Field)  { yield() }
+func (fLogger) Warn(string, ...zap.Field)  { yield() }
+func (fLogger) Error(string, ...zap.Field) { yield() }
 func (fLogger) Fatal(string, ...zap.Field) {}
 
 // runRaceProgram executes one program free-running inside a bubble (virtual time).
@@ -281,7 +294,7 @@ func runRaceProgram(t *testing.T, p raceProgram) {
 		root, cancel := context.WithCancel(context.Background())
 		a, conn := mk("A", true)
 		b, _ := mk("B", false)
-		notify := make(chan string, 16)
+		notify := make(chan string, 64)
 		dispDone := make(chan struct{})
 		go func() { // serial dispatcher, as in nats.go
 			defer close(dispDone)
@@ -335,7 +348,14 @@ func runRaceProgram(t *testing.T, p raceProgram) {
 					if k > 0 {
 						time.Sleep(time.Duration(3+2*ci) * time.Millisecond)
 					}
-					c20Call(a, root, c)
+					switch c {
+					case "NotifyD":
+						notify <- "D"
+					case "NotifyR":
+						notify <- "R"
+					default:
+						c20Call(a, root, c)
+					}
 				}
 			}(ci, calls)
 		}
@@ -704,7 +724,7 @@ func c20Direct(c *CheckCtx) {
 func init() {
 	props["C20"] = &propDef{
 		Level:  "exploration",
-		Rule:   "the program space is enumerated exhaustively: concurrent API callers on one election (quick: all unordered pairs of single calls over the 11 public methods, each call against five lifecycle two-call sequences, triples over a reduced alphabet; thorough: all pairs of two-call sequences and all triples of single calls) x five phases (fresh, leading, following, restarted, disconnected) x latency seeds, plus a serial connection-notification dispatcher and a competing instance; every program is executed free-running (real sync/atomic, -race, virtual time) and the verdict on each execution is the Go race detector's; evaluations = executions, distinct_nontrivial = distinct (phase, caller set) programs executed",
+		Rule:   "the program space is enumerated exhaustively: concurrent API callers on one election (quick: all unordered pairs of single calls over the 11 public methods and the two connection notifications, each call against five lifecycle two-call sequences, triples over a reduced alphabet; thorough: all pairs of two-call sequences and all triples of single calls) x five phases (fresh, leading, following, restarted, disconnected) x latency seeds, plus a serial connection-notification dispatcher and a competing instance; every program is executed free-running (real sync/atomic, -race, virtual time) and the verdict on each execution is the Go race detector's; evaluations = executions, distinct_nontrivial = distinct (phase, caller set) programs executed",
 		Assume: []string{"the decision step per execution is dynamic (happens-before) race detection, not enumeration of memory-model interleavings", "locks of the harness store add happens-before edges that can hide a race the real client would expose", "two connection callbacks never run concurrently (nats.go dispatches them serially)"},
 		Direct: c20Direct,
 	}
